@@ -281,9 +281,20 @@ func sinkFaults(r *ev.Run) {
 					if dev {
 						lopts = append(lopts, zap.Development())
 					}
+					// caller / stack annotation asked for, in two vectors out of five from a place the
+					// annotation cannot be found (skip beyond the stack): reports still reach the error output
+					callerMode := (k + vec + e) % 5
+					switch callerMode {
+					case 0:
+						lopts = append(lopts, zap.AddCaller(), zap.AddCallerSkip(1000))
+					case 1:
+						lopts = append(lopts, zap.AddStacktrace(zapcore.DebugLevel), zap.AddCallerSkip(1000))
+					case 2:
+						lopts = append(lopts, zap.AddCaller(), zap.AddStacktrace(zapcore.WarnLevel))
+					}
 					lg := zap.New(top, lopts...)
 					msg := fmt.Sprintf("entry-%d-%d-%d", k, vec, e)
-					wit := map[string]any{"mode": mode, "destinations": names, "entry": e, "level": lvl.String(), "stock_terminal_actions": realTerm, "development": dev, "error_values": []string{"distinct", "uncomparable type", "one shared sentinel", "a nil pointer whose Error method panics"}[errKind]}
+					wit := map[string]any{"mode": mode, "destinations": names, "entry": e, "level": lvl.String(), "stock_terminal_actions": realTerm, "development": dev, "caller_mode": []string{"AddCaller with skip 1000", "AddStacktrace with skip 1000", "AddCaller and AddStacktrace", "none", "none"}[callerMode], "error_values": []string{"distinct", "uncomparable type", "one shared sentinel", "a nil pointer whose Error method panics"}[errKind]}
 					bad := func(class, f string, a ...any) {
 						r.Violate(ev.Violation{Case: id, Class: class, Msg: fmt.Sprintf("%s %v entry %d: ", mode, names, e) + fmt.Sprintf(f, a...), Witness: wit})
 					}
